@@ -331,7 +331,8 @@ def pathSet (value : Option Val) : Val → List Frag → M Unit
         match value with
         | none => (.ok (), h)                    -- nothing to delete
         | some _ =>
-          match next with
+          if h.length ≤ a then (.ok (), h)         -- a dangling reference (never built): nothing to write into
+          else match next with
           | .child _ =>
             let b := h.length
             let h1 := h ++ [Cell.map []]
